@@ -51,9 +51,9 @@ def out_model(name, out_nbits, out_nchans, rec):
             v20.append((f"{name}: header bytes written after data started", z3.BoolVal(True)))
         else:
             arrs.append(a)
-    seeks = [e for e in FS.log if e[0] == "seek" and e[1] == name]
+    seeks = [e for e in FS.log if e[0] in ("seek", "truncate") and e[1] == name]
     if seeks:
-        v20.append((f"{name}: writer seeked (not append-only)", z3.BoolVal(True)))
+        v20.append((f"{name}: writer used {seeks[0][0]} (not append-only)", z3.BoolVal(True)))
     f = 8 // out_nbits if out_nbits < 8 else 1
     pieces = []
     total = z3.IntVal(0)
@@ -147,12 +147,12 @@ def harness(st, op, nbits, nchans, nfiles, none, prm):
                 outs.append(("o.fil", nbits, nchans, ne, lambda t, c: X(nbits, nchans, start + t, c), dict(span=lambda c: (c, c), tf=1)))
             elif op == "extract_chans":
                 chans = prm["chans"]
-                names = r.extract_chans(list(chans), outfile_base="o", **kw)
+                names = r.extract_chans(list(chans), outfile_base="o", batch_size=prm.get("batch_size", 200), **kw)
                 for nm, ch in zip(names, chans):
                     outs.append((nm, 32, 1, ne, lambda t, c, ch=ch: X(nbits, nchans, start + t, ch), dict(span=lambda c, ch=ch: (ch, ch), tf=1)))
             elif op == "extract_bands":
                 cs, ncs, cps = prm["chanstart"], prm["nchans_sel"], prm["chanpersub"]
-                names = r.extract_bands(cs, ncs, cps, outfile_base="o", **kw)
+                names = r.extract_bands(cs, ncs, cps, outfile_base="o", batch_size=prm.get("batch_size", 200), **kw)
                 if len(names) < ncs // cps:
                     rec.viol.append(("extract_bands covers the requested range", z3.BoolVal(True)))
                 for b, nm in enumerate(names):
@@ -261,6 +261,8 @@ def check_path(P, ctx, rec, op, nbits, nchans, prm, label, budget, which="viol",
     Ctx.cur = ctx
     viol = getattr(rec, which)
     if which != "viol" and rec.err:
+        # the transform left the modelled subset / raised: never a silent pass for the piggy-backed properties
+        P.inconclusive_(f"{label}: symbolic execution of the transform raised {rec.err}; no trace to check")
         Ctx.cur = None
         return 0
     conds = [c for _, c in viol]
@@ -298,11 +300,11 @@ def items_for(tier, which="viol"):
     nblocks = 3 if quick else 4
     for op in OPS:
         if op in ("extract_chans",):
-            prms = [dict(chans=[1, 0])] if quick else [dict(chans=[0]), dict(chans=[1, 0]), dict(chans=[2, 2])]
+            prms = [dict(chans=[1, 0]), dict(chans=[0, 1], batch_size=1)] if quick else [dict(chans=[0]), dict(chans=[1, 0]), dict(chans=[2, 2]), dict(chans=[0, 1], batch_size=1)]
         elif op == "extract_bands":
-            prms = [dict(chanstart=0, nchans_sel=4, chanpersub=2)] if quick else [dict(chanstart=0, nchans_sel=4, chanpersub=2), dict(chanstart=2, nchans_sel=2, chanpersub=2), dict(chanstart=0, nchans_sel=4, chanpersub=4)]
+            prms = [dict(chanstart=0, nchans_sel=4, chanpersub=2), dict(chanstart=0, nchans_sel=4, chanpersub=2, batch_size=1)] if quick else [dict(chanstart=0, nchans_sel=4, chanpersub=2), dict(chanstart=2, nchans_sel=2, chanpersub=2), dict(chanstart=0, nchans_sel=4, chanpersub=4), dict(chanstart=0, nchans_sel=4, chanpersub=2, batch_size=1)]
         elif op == "downsample":
-            prms = [dict(tfactor=2, ffactor=2)] if quick else [dict(tfactor=1, ffactor=2), dict(tfactor=2, ffactor=1), dict(tfactor=2, ffactor=2), dict(tfactor=3, ffactor=1)]
+            prms = [dict(tfactor=2, ffactor=2), dict(tfactor=3, ffactor=1)] if quick else [dict(tfactor=1, ffactor=2), dict(tfactor=2, ffactor=1), dict(tfactor=2, ffactor=2), dict(tfactor=3, ffactor=1), dict(tfactor=3, ffactor=2)]
         elif op == "subband":
             prms = [dict(nsub=2)] if quick else [dict(nsub=1), dict(nsub=2), dict(nsub=4)]
         elif op == "remove_zerodm":
